@@ -287,13 +287,34 @@ def judge_cov(ck, s, regime, out, extra=None):
     ck.monitors["cov.psd"]["calls"] += C.shape[0]
 
 
-def run_history(ck, monitor, regime, s, comp, row=None, squeeze=0, mod=None, extra=None):
-    """Feed the stream in the chunks of `comp` to one fresh module; -> concatenated outputs or None."""
+def bad_optional(s, kind):
+    """An unusable optional argument: the call is rejected (raises) and has therefore not been fed."""
+    if kind == "acc_cov:dtype":
+        return {"acc_cov": torch.full((1, 1, 3), 1e-3, dtype=torch.float32 if s.dtype == torch.float64 else torch.float64)}
+    if kind == "gyro_cov:shape":
+        return {"gyro_cov": torch.full((1, 1, 2), 1e-3, dtype=s.dtype)}
+    return {"init_state": {"pos": torch.zeros(1, 1, 3, dtype=s.dtype)}}       # incomplete init_state (no rot/vel)
+
+
+REJECT_KINDS = ("acc_cov:dtype", "gyro_cov:shape", "init_state:incomplete")
+
+
+def run_history(ck, monitor, regime, s, comp, row=None, squeeze=0, mod=None, extra=None, reject=None):
+    """Feed the stream in the chunks of `comp` to one fresh module; -> concatenated outputs or None.
+    reject=(chunk index, kind): that chunk is first offered with an unusable optional argument; when the module
+    rejects it (raises) the same chunk is then fed correctly."""
     m = build(s, row=row) if mod is None else mod
     parts, a = [], 0
     B = s.B if row is None else 1
-    for n in comp:
+    for ci, n in enumerate(comp):
         args, kw = call_args(s, a, a + n, row=row, squeeze=squeeze)
+        if reject is not None and reject[0] == ci:
+            try:
+                m(*args, **dict(kw, **bad_optional(s, reject[1])))
+                ck.mark("rejected-call/accepted:" + reject[1])
+                return None                      # the module accepted it: nothing to judge for this scenario
+            except Exception:
+                ck.mark("rejected-call/raised:" + reject[1])
         okc, out = ck.call(monitor, regime, "IMUPreintegrator.forward", m, *args,
                            witness=wit_of(s, dict(extra or {}, composition=list(comp), chunk_start=a, chunk_len=n)), **kw)
         if not okc:
@@ -400,6 +421,16 @@ def run_stream(ck, s, rng, thorough):
                 continue
             judge(ck, "chunking", regime, s, as_np(hist), got1, ref, "differs_between_chunked_and_single_call",
                   {"composition": list(comp)})
+        # ---- a chunk that was rejected (the call raised) has not been fed: repeating it correctly continues the stream
+        comp = comps[int(rng.integers(len(comps)))]
+        kind = REJECT_KINDS[s.cid % len(REJECT_KINDS)]
+        rj = (int(rng.integers(0, len(comp))), kind)
+        hist = run_history(ck, "chunking", regime, s, comp, reject=rj)
+        if hist is not None:
+            ck.count("chunking", f"{regime}/after-rejected-call", key=(s.cid, comp, rj))
+            ck.mark("chunks/after-rejected-call")
+            judge(ck, "chunking", regime, s, as_np(hist), got1, ref, "differs_after_a_rejected_call",
+                  {"composition": list(comp), "rejected_chunk": rj[0], "rejected_with": kind})
     # ---- rank paths
     if B == 1:
         hist = run_history(ck, "ranks", regime, s, (F,), squeeze=1, extra={"rank": "(F,H)"})
@@ -529,7 +560,7 @@ def run(ck):
     for dn, known, grav in cells:
         ck.require(f"cell/{dn}/{'rot' if known else 'norot'}/g{'0' if grav == 0 else '9.81'}")
     ck.require("len/F+1=pow2", "len/F+1!=pow2", "gravity-through-integrated-rotation/init_rot!=I",
-               "chunks/all-compositions", "chunks/ones", "chunks/two", "chunks/random", "chunks/has-single-frame-chunk",
+               "chunks/all-compositions", "chunks/ones", "chunks/two", "chunks/random", "chunks/has-single-frame-chunk", "chunks/after-rejected-call",
                "rank/(F,H)", "rank/(H)", "rank/(B,F,H)", "rank/row-alone")
     ck.require(*[f"init/{k}" for k in INIT_KINDS], *[f"batch/B{b}" for b in (1, 2, 3, 4)],
                *[f"dt/{k}" for k in DT_KINDS])
